@@ -202,10 +202,11 @@ def run_case(case):
             "c": data[-1][1],          # t.k
             "d": data[-1][0],          # only2 = #0
             "hv": [r[1] for r in data if r[0] == "k"],
+            "h0": [r[0] for r in data if r[0] == "k"],
         }
         probe = cp.csvpath()
         pf = cp.file_manager.get_named_file("f0")
-        text = f"${pf}[1][ @a = $R.variables.v @b = $R.variables.only1 @c = $R.variables.t.k @d = $R.variables.only2 @hv = $H.headers.c1 ]"
+        text = f"${pf}[1][ @a = $R.variables.v @b = $R.variables.only1 @c = $R.variables.t.k @d = $R.variables.only2 @hv = $H.headers.c1 @h0 = $H.headers.c0 ]"
         got = {}
         try:
             with sandbox.capture_stdout():
@@ -218,12 +219,14 @@ def run_case(case):
         if not exp["hv"]:
             exp.pop("hv")  # nothing collected under the header: the docs define the reference as an existence test only
             got.pop("hv", None)
+            exp.pop("h0")
+            got.pop("h0", None)
             perr = [e for e in perr if "data" not in e[2].lower() and "captured" not in e[2].lower()] if perr else perr
         elif perr:
             bad("probe errors", perr, [], cstr)
         for k in exp:
             if got.get(k) != exp[k]:
-                what = {"a": "$R.variables.v (written by both members)", "b": "$R.variables.only1", "c": "$R.variables.t.k", "d": "$R.variables.only2", "hv": "$H.headers.c1"}[k]
+                what = {"a": "$R.variables.v (written by both members)", "b": "$R.variables.only1", "c": "$R.variables.t.k", "d": "$R.variables.only2", "hv": "$H.headers.c1", "h0": "$H.headers.c0 (first header)"}[k]
                 bad(f"{what} is not the value the most recent run left", got.get(k), exp[k], cstr)
         return {"viol": viol, "states": [run.h64((tuple(hist[: i + 1]), method)) for i in range(len(hist))], "transitions": 2 * len(hist) + 1, "nontrivial": len(hist) > 1, "outcome": run.h64(exp), "fingerprint": run.h64((cstr, [v["diverge"] for v in viol]))}
 
